@@ -101,7 +101,9 @@ contract(F + "Continuum.copy",
                   cl("Cat(result) == Cat(self)", "C13 C14", name="categories"),
                   cl("result.bound_inf == self.bound_inf and result.bound_sup == self.bound_sup and "
                      "result.best_window_size == self.best_window_size", name="bounds-and-window"),
-                  cl("RI(result)", name="RI")],
+                  cl("RI(result)", name="RI"),
+                  cl("Kseq(result) == Kseq(self) and Nkeys(result) == Nkeys(self) and Kidx(result) == Kidx(self) and Cnt(result) == Cnt(self) "
+                     "and Useq(result) == Useq(self) and Uidx(result) == Uidx(self)", "C10", name="same-enumeration")],
          serves={"C13", "C14", "C10"})
 
 # ------------------------------------------------------------------------------------------ observers (C13)
@@ -312,6 +314,7 @@ def best_alignment_contract(name, soft):
         cl("forall(a, 0, nA(), forall(j, 0, cntAt(a), exists(t, 0, len(L()), not isnone(slot(t, a)) and "
            "some(slot(t, a)) == unitAt(a, j))))", "C01 C11 C08 C10", name="P3-every-unit-at-least-once"),
     ]
+    ensures.append(cl("forall(t, 0, len(L()), not isnone(L()[t]._disorder))", "C10 C03", name="P4-every-unitary-alignment-carries-its-disorder"))
     if not soft:
         ensures.append(cl("forall(t1, 0, len(L()), forall(t2, t1 + 1, len(L()), forall(a, 0, nA(), isnone(slot(t1, a)) or "
                           "isnone(slot(t2, a)) or some(slot(t1, a)) != some(slot(t2, a)))))", "C01 C08 C10",
@@ -477,20 +480,95 @@ def fast_contracts():
     callee = REGISTRY[F + "Continuum.get_best_alignment"]
     ren = lambda t: re.sub(r"\bself\b", "continuum", t)       # noqa: E731
     ens = [c for c in callee.ensures if c.name in STRUCTURAL]
+    NONEMPTY = "exists(k, 0, Nkeys({c}), Cnt({c})[Kseq({c})[k]] != 0)"
+    contract(F + "Continuum.get_first_window",
+             params={"self": CONT(), "dissimilarity": DISSIM(), "w": IntT()}, returns=TupleOf(CONT(), RealT()),
+             modifies=[], macros=VIEW_MACROS,
+             requires=["RI(self)", "w >= 1", "dissimilarity.delta_empty >= 0", NONEMPTY.format(c="self")],
+             ensures=[cl("fresh_obj(result[0]) and disjoint_state(result[0], self)", "C10", name="fresh-window"),
+                      cl("RI(result[0])", "C10", name="RI"),
+                      cl("Ann(result[0]) == Ann(self) and Kseq(result[0]) == Kseq(self) and Nkeys(result[0]) == Nkeys(self) and "
+                         "Kidx(result[0]) == Kidx(self)", "C10", name="same-annotators-in-the-same-order"),
+                      cl("forall([(a, Real), (u, Unit)], implies(Us(result[0])[a][u], Us(self)[a][u]))", "C10", name="window-units-are-units-of-the-continuum"),
+                      cl("forall([(a, Real)], Cnt(result[0])[a] <= Cnt(self)[a])", "C10", name="no-more-units-per-annotator"),
+                      cl(NONEMPTY.format(c="result[0]"), "C10", name="window-not-empty")],
+             trusted=True,
+             notes="ASSUMED (zip / map / numpy code outside the encoding): what get_fast_alignment's termination and partition proof needs of "
+                   "the window - a fresh non-empty sub-continuum over the same annotators; exercised by the bounded oracle (fast.py)",
+             serves={"C10"})
+    FM = list(callee.macros.values()) + [
+        Macro("KA", ["a"], "Kseq(self)[a]"),
+        Macro("slotU", ["t", "a"], "unitary_alignments[t]._n_tuple[a][1]"),
+        Macro("BL", [], "best_alignment.unitary_alignments"),
+        Macro("slotB", ["t", "a"], "best_alignment.unitary_alignments[t]._n_tuple[a][1]"),
+        Macro("slotC", ["a"], "chosen._n_tuple[a][1]"),
+        Macro("cpbase", [], "RI(copy) and Ann(copy) == Ann(self) and Kseq(copy) == Kseq(self) and Nkeys(copy) == Nkeys(self) and "
+                            "Kidx(copy) == Kidx(self) and forall([(a, Real), (u, Unit)], implies(Us(copy)[a][u], Us(self)[a][u])) and "
+                            "forall([(a, Real)], Cnt(copy)[a] <= Cnt(self)[a])"),
+        Macro("wf_done", ["n"], "forall(t, 0, n, len(unitary_alignments[t]._n_tuple) == nA() and not isnone(unitary_alignments[t]._disorder) and "
+                                "forall(a, 0, nA(), unitary_alignments[t]._n_tuple[a][0] == KA(a) and (isnone(slotU(t, a)) or "
+                                "(Us(self)[KA(a)][some(slotU(t, a))] and not Us(copy)[KA(a)][some(slotU(t, a))]))))"),
+        Macro("p2_done", ["n"], "forall(t, 0, n, exists(a, 0, nA(), not isnone(slotU(t, a))))"),
+        Macro("amo_done", ["n"], "forall(t1, 0, n, forall(t2, t1 + 1, n, forall(a, 0, nA(), isnone(slotU(t1, a)) or isnone(slotU(t2, a)) or "
+                                 "some(slotU(t1, a)) != some(slotU(t2, a)))))"),
+        Macro("cover", ["n"], "forall([a, (u, Unit)], implies(0 <= a and a < nA() and Us(self)[KA(a)][u], Us(copy)[KA(a)][u] or "
+                              "exists(t, 0, n, not isnone(slotU(t, a)) and some(slotU(t, a)) == u)))"),
+        Macro("dis_ok", ["n"], "len(disorders) == n and forall(t, 0, n, disorders[t] == some(unitary_alignments[t]._disorder))"),
+        # the unitary alignments of the window's best alignment not consumed yet still have all their units in the working copy
+        Macro("pending", ["kc", "skip"], "forall(t, 0, len(BL()), t == skip or exists(k, 0, kc, ghost('PI')[k] == t) or "
+                                         "forall(a, 0, nA(), isnone(slotB(t, a)) or Us(copy)[KA(a)][some(slotB(t, a))]))"),
+        Macro("taken", ["kc"], "len(unitary_alignments) == U0 + kc and forall(k, 0, kc, unitary_alignments[U0 + k] == BL()[ghost('PI')[k]])"),
+    ]
     contract(F + "Continuum.get_fast_alignment",
              params={"self": CONT(), "dissimilarity": DISSIM(), "window_size": IntT()}, returns=ALIGN("Alignment"),
-             modifies=[], macros=list(callee.macros.values()), binds={"result.continuum": "self"},
-             requires=[c.text for c in callee.requires] + ["window_size >= 1"],
+             modifies=[], macros=FM, binds={"result.continuum": "self"}, lemmas=PSUM_LEMMAS,
+             locals={"unitary_alignments": UAT(), "disorders": RealT()},
+             ghost_vars={"U0": ("Int", "0"), "NU0": ("Int", "0"), "NUK": ("Int", "0")},
+             requires=[c.text for c in callee.requires] + ["window_size >= 1", "NumUnits(self) >= 1"],
              raises={"AssertionError": {}, "SolverError": {}},
              ensures=[cl(c.text, "C10", name=c.name) for c in ens],
-             trusted=True,
-             notes="assumed here (used by the job contract); decided by the bounded oracle harness/oracles/fast.py incl. its stall detector",
+             loops={"L0": dict(match="while copy", variant="NumUnits(copy)", modifies=["copy"],
+                               inv=["cpbase()", "wf_done(len(unitary_alignments))", "p2_done(len(unitary_alignments))",
+                                    "amo_done(len(unitary_alignments))", "cover(len(unitary_alignments))", "dis_ok(len(unitary_alignments))"]),
+                    "L0.0": dict(match="for chosen in best_alignment.take_until_limit(x_limit)", index="kc", modifies=["copy"],
+                                 inv=["cpbase()", "taken(kc)", "wf_done(U0 + kc)", "p2_done(U0 + kc)", "amo_done(U0 + kc)", "cover(U0 + kc)",
+                                      "dis_ok(U0 + kc)", "pending(kc, -1)",
+                                      "NumUnits(copy) <= NU0 and implies(kc >= 1, NumUnits(copy) < NU0)"]),
+                    "L0.0.0": dict(match="for annotator, unit in chosen.n_tuple", index="ia", modifies=["copy"],
+                                   inv=["cpbase()", "taken(kc + 1)", "wf_done(U0 + kc)", "p2_done(U0 + kc + 1)", "amo_done(U0 + kc + 1)",
+                                        "cover(U0 + kc + 1)", "dis_ok(U0 + kc + 1)", "pending(kc, ghost('PI')[kc])",
+                                        "forall(a, 0, nA(), isnone(slotC(a)) or (Us(copy)[KA(a)][some(slotC(a))] == (a >= ia)))",
+                                        "NUK <= NU0 and implies(kc >= 1, NUK < NU0)",
+                                        "NumUnits(copy) <= NUK and implies(exists(a, 0, ia, not isnone(slotC(a))), NumUnits(copy) < NUK)"])},
+             hooks=[("before", "window, x_limit = copy.get_first_window(dissimilarity, window_size)", "U0 = len(unitary_alignments)"),
+                    ("before", "window, x_limit = copy.get_first_window(dissimilarity, window_size)", "NU0 = NumUnits(copy)"),
+                    ("before", "window, x_limit = copy.get_first_window(dissimilarity, window_size)", "model_inv wfmap(self)"),
+                    ("before", "window, x_limit = copy.get_first_window(dissimilarity, window_size)", "model_inv wfmap(copy)"),
+                    ("before", "window, x_limit = copy.get_first_window(dissimilarity, window_size)",
+                     "use psum_nonneg(f=lam(k, Cnt(copy)[Kseq(copy)[k]]), k=Nkeys(copy))"),
+                    # the window is not empty, so its best alignment has at least one unitary alignment: the generator yields at least once
+                    ("before", "for chosen in best_alignment.take_until_limit(x_limit): ...", "model_inv wfmap(window)"),
+                    ("before", "for chosen in best_alignment.take_until_limit(x_limit): ...", "assert len(BL()) >= 1"),
+                    ("before", "unitary_alignments.append(chosen)", "NUK = NumUnits(copy)"),
+                    ("after", "disorders.append(chosen.disorder)", "assert forall(a, 0, nA(), slotU(U0 + kc, a) == slotC(a))"),
+                    ("after", "disorders.append(chosen.disorder)", "assert exists(a, 0, nA(), not isnone(slotC(a)))"),
+                    ("after", "disorders.append(chosen.disorder)", "assert forall(a, 0, nA(), forall(a2, 0, nA(), implies(a != a2, KA(a) != KA(a2))))"),
+                    ("after", "copy.remove(annotator, unit)",
+                     "assert not isnone(slotU(U0 + kc, ia)) and some(slotU(U0 + kc, ia)) == unit and KA(ia) == annotator"),
+                    ("before", "return Alignment(...", "model_inv wfmap(copy)"),
+                    ("before", "return Alignment(...", "model_inv wfmap(self)"),
+                    ("before", "return Alignment(...", "assert forall([(a, Real), (u, Unit)], not Us(copy)[a][u])"),
+                    ("before", "return Alignment(...", "assert forall(a, 0, nA(), forall(j, 0, cntAt(a), Us(self)[KA(a)][unitAt(a, j)]))"),
+                    ("before", "return Alignment(...",
+                     "use psum_ext_real(f=lam(t, some(unitary_alignments[t]._disorder)), g=raw(disorders), k=len(unitary_alignments))")],
+             calls={"take_until_limit": "pygamma_agreement/alignment.py::Alignment.take_until_limit"},
+             notes="termination (variant NumUnits(copy)) and partition of the windowed algorithm, given the assumed contract of get_first_window",
              serves={"C10"})
     contract(F + "_compute_fast_alignment_job",
              params={"dissimilarity": DISSIM(), "continuum": CONT()}, returns=ALIGN("Alignment"), modifies=[],
              macros=[Macro(m.name, m.params, ren(m.body.text)) for m in callee.macros.values()],
              requires=[ren(c.text) for c in callee.requires] +
-                      ["continuum.best_window_size.isinf or continuum.best_window_size.val >= 1"],
+                      ["continuum.best_window_size.isinf or continuum.best_window_size.val >= 1", "NumUnits(continuum) >= 1"],
              binds={"result.continuum": "continuum"},
              raises={"AssertionError": {}, "SolverError": {}},
              ensures=[cl(ren(c.text), "C10", name=c.name) for c in ens],
